@@ -396,7 +396,11 @@ func (r *Run) requireEachSuccessPath(id, why string, f *ssa.Function, ctx core.C
 		ret := p[len(p)-1].Instrs[len(p[len(p)-1].Instrs)-1].(*ssa.Return)
 		if ei >= 0 && isErrorTypeV(core.RetOp(ret, ei)) && !isNilConstV(core.RetOp(ret, ei)) {
 			// not provably nil: treat a returned call error as failure only when the path says so
-			if !couldBeNil(ff, core.RetOp(ret, ei), rawPathFacts(ff, p)) {
+			rpf := rawPathFacts(ff, p)
+			ev := valueOnPath(core.RetOp(ret, ei), p)
+			if isNilConstV(ev) {
+				// the merged error is nil on this path
+			} else if !couldBeNil(ff, ev, rpf) || rpf.Has((&core.Fact{Kind: "cmp", Op: "!=", A: ff.TB.Of(core.RetOp(ret, ei)), B: &core.Term{Op: "const", Name: "nil"}}).Key()) {
 				continue
 			}
 		}
@@ -431,6 +435,36 @@ func (r *Run) requireEachSuccessPath(id, why string, f *ssa.Function, ctx core.C
 	}
 	r.R.Ok(id, rule, core.FuncName(f), r.where(f), why, fmt.Sprintf("%d success path(s) all carry an alternative", n))
 	return true
+}
+
+// valueOnPath: the operand a (chain of) phi(s) takes when control runs along path (the value itself otherwise).
+func valueOnPath(v ssa.Value, path []*ssa.BasicBlock) ssa.Value {
+	for depth := 0; depth < 8; depth++ {
+		phi, ok := v.(*ssa.Phi)
+		if !ok {
+			return v
+		}
+		at := -1
+		for i, b := range path {
+			if b == phi.Block() {
+				at = i
+			}
+		}
+		if at <= 0 {
+			return v
+		}
+		idx := -1
+		for i, q := range phi.Block().Preds {
+			if q == path[at-1] {
+				idx = i
+			}
+		}
+		if idx < 0 {
+			return v
+		}
+		v = phi.Edges[idx]
+	}
+	return v
 }
 
 func isErrorTypeV(v ssa.Value) bool {
